@@ -13,7 +13,10 @@ Modelled divergences (pyccel 2.0.1, --language=fortran):
   D2  value of a loop variable after the loop:  `for i in range(a, b)` leaves i = b-1 in Python (or leaves i untouched for
       an empty range); a Fortran DO loop that runs to completion leaves i = b (one step past the last value; a for an empty range).
       Same for the counter of `for i, x in enumerate(arr)`.
-Everything else (integer division, modulo, slices, stack arrays, reassociation) is NOT modelled.
+  D3  a negative, non-literal index:  Python counts from the end (`vals[i - s]` with i - s < 0 reads vals[n + i - s]); the generated
+      Fortran has no such wrap (a literal `x[-1]` is translated at compile time, an expression is not) and reads or writes outside
+      the array.  In the model such an access raises PyccelOutOfBounds.
+Everything else (integer and floating floor division, modulo, slices, stack arrays, reassociation) is NOT modelled.
 """
 import ast
 import importlib.machinery
@@ -37,6 +40,36 @@ def _is_array_annotation(a):
     return isinstance(a, ast.Constant) and isinstance(a.value, str) and '[' in a.value.replace('Final[', '', 1)
 
 
+class PyccelOutOfBounds(Exception):
+    """an index expression is negative: Python wraps it, the generated Fortran does not"""
+
+
+def _pyccel_index(i):
+    """index check of the model (D3); forks on a symbolic index through its comparison"""
+    if i < 0:
+        raise PyccelOutOfBounds('negative index %s: Python counts from the end, the pyccel build reads / writes outside the array' % (i,))
+    return i
+
+
+def _is_literal_index(node):
+    if isinstance(node, ast.Constant):
+        return True
+    if isinstance(node, ast.UnaryOp) and isinstance(node.op, (ast.USub, ast.UAdd)) and isinstance(node.operand, ast.Constant):
+        return True
+    return False
+
+
+def _wrap_index(node, notes, fn):
+    """every non-literal scalar index"""
+    if isinstance(node, ast.Slice) or _is_literal_index(node):
+        return node
+    if isinstance(node, ast.Tuple):
+        return ast.Tuple(elts=[_wrap_index(e, notes, fn) for e in node.elts], ctx=node.ctx)
+    if isinstance(node, ast.Constant) or (isinstance(node, ast.Call) and isinstance(node.func, ast.Name) and node.func.id == '_pyccel_index'):
+        return node
+    return ast.Call(func=ast.Name(id='_pyccel_index', ctx=ast.Load()), args=[node], keywords=[])
+
+
 class _Transformer(ast.NodeTransformer):
     def __init__(self):
         self.notes = []
@@ -56,6 +89,11 @@ class _Transformer(ast.NodeTransformer):
                     self.notes.append('D1 %s: assignment to array argument %s (line %d)' % (fn, n.targets[0].id, n.lineno))
                     tgt = ast.Subscript(value=ast.Name(id=n.targets[0].id, ctx=ast.Load()), slice=ast.Constant(value=Ellipsis), ctx=ast.Store())
                     return ast.copy_location(ast.Assign(targets=[tgt], value=n.value), n)
+                return n
+
+            def visit_Subscript(inner, n):
+                inner.generic_visit(n)
+                n.slice = _wrap_index(n.slice, self.notes, fn)
                 return n
 
             def visit_For(inner, n):
@@ -142,6 +180,7 @@ def model_module(ref_mod, name):
     m = types.ModuleType(name)
     m.__file__ = ref_mod.__file__
     m.__package__ = ref_mod.__package__
+    m.__dict__['_pyccel_index'] = _pyccel_index
     exec(compile(new_src, ref_mod.__file__ + '<pyccel-model>', 'exec'), m.__dict__)
     for v in vars(m).values():
         if inspect.isfunction(v) and v.__module__ is None:
